@@ -6,6 +6,7 @@
    sources the working-tree plugin emits (GENID / GENFIELD / GENSIZEBR lines). That the emitted packages compile and
    behave is decided by running the Go toolchain on every request of the run, not by proof. *)
 From CP Require Import Schema Extra KeyBytes GenNames GenTemplates GenTemplates2 GenNamesProofs GenTemplatesProofs GenTemplates2Proofs.
+From CP Require Import GoFun GenProg GenProgProofs.
 Local Open Scope N_scope.
 
 (* md_X, fastReflection_X, fastReflection_X_messageType, _fastReflection_X_messageType, _X_<n>_list, _X_<n>_map and fd_X_f
@@ -116,3 +117,60 @@ Example templates_example :
   field_toks TUnmarshal (FK KBool) SPacked false <> None /\
   method_opens THas [(FK KInt32, SSingular, None); (FK KString, SSingular, Some 0); (FMsg, SSingular, Some 0)] = Some 10.
 Proof. vm_compute. repeat split; try reflexivity. discriminate. Qed.
+
+(* ---- translator tie (task T17, Model/GenProg.v) -------------------------------------------------------------------------------------
+   /repo/cmd/protoc-gen-go-pulsar/main.go is re-translated on every run of this check (engine "genprog") and compared with the canonical
+   program [canon_main_go]. The theorems below say that its renaming logic, INTERPRETED on protogen's object tree, is GenNames.v's. *)
+
+(* the literal `reservedFieldNames` evaluates to a map whose keys are exactly GenNames.reserved (the 16 methods) *)
+Theorem reserved_literal_is_reserved : GenProg.reserved_literal_stmt.
+Proof. exact GenProgProofs.reserved_literal. Qed.
+
+(* rewriteMessageField on the message at any place of the tree = gpp_rw_msg on that subtree (GenNames.rewrite_field on every field and
+   every real oneof of every message visited; a message already in `processed` and a map entry are skipped with everything below them;
+   nested messages are visited in order, threading `processed`); the rest of the tree, the other maps and the variables are untouched *)
+Theorem rewrite_prog_correct : GenProg.rewrite_prog_stmt.
+Proof. exact GenProgProofs.rewrite_prog. Qed.
+
+(* what gpp_rw_msg does to a visited message, in the words of GenNames.v: its struct members (fields, then real oneofs) become
+   GenNames.struct_members of the old ones; full names, synthetic oneofs, flags and the number of nested messages stay *)
+Theorem rewritten_members : forall full fs os ms done, gpp_map_get full done = None ->
+  let m' := fst (gpp_rw_msg (GpMsg full false fs os ms) done) in
+  map pf_go (pm_fields m') ++ map po_go (filter po_real (pm_oneofs m')) = struct_members (map pf_go fs) (map po_go (filter po_real os))
+  /\ map pf_full (pm_fields m') = map pf_full fs
+  /\ map (fun o => (po_syn o, po_full o)) (pm_oneofs m') = map (fun o => (po_syn o, po_full o)) os
+  /\ filter po_syn (pm_oneofs m') = filter po_syn os
+  /\ pm_full m' = full /\ pm_mapentry m' = false /\ length (pm_msgs m') = length ms.
+Proof. exact GenProgProofs.rw_msg_members. Qed.
+
+(* hence no member of a visited message is called like a method of protoreflect.Message *)
+Theorem rewritten_members_no_clash : forall full fs os ms done x, gpp_map_get full done = None ->
+  let m' := fst (gpp_rw_msg (GpMsg full false fs os ms) done) in
+  In x (map pf_go (pm_fields m') ++ map po_go (filter po_real (pm_oneofs m'))) -> ~ In x reserved.
+Proof. exact GenProgProofs.rw_msg_no_clash. Qed.
+
+(* a message already processed, and a map entry, are left alone *)
+Theorem rewrite_skips : forall full me fs os ms done, gpp_map_get full done <> None \/ me = true ->
+  gpp_rw_msg (GpMsg full me fs os ms) done = (GpMsg full me fs os ms, done).
+Proof. exact GenProgProofs.rw_msg_skipped. Qed.
+
+Local Open Scope byte_scope.
+(* non-vacuity: the whole canonical plugin run on a file with a message M { Type; X; oneof Has; synthetic oneof Get; nested N { Get };
+   map entry E { Get } }: Type, Has and N.Get get their underscore, the synthetic oneof and the map entry do not; one file is made *)
+Example genprog_rewrite_example :
+  let m := GpMsg ["M"] false [ {| pf_go := ["T"; "y"; "p"; "e"]; pf_full := ["a"] |}; {| pf_go := ["X"]; pf_full := ["b"] |} ]
+                 [ {| po_go := ["H"; "a"; "s"]; po_syn := false; po_full := ["c"] |}; {| po_go := ["G"; "e"; "t"]; po_syn := true; po_full := ["d"] |} ]
+                 [ GpMsg ["M"; "."; "N"] false [ {| pf_go := ["G"; "e"; "t"]; pf_full := ["e"] |} ] [] [];
+                   GpMsg ["M"; "."; "E"] true [ {| pf_go := ["G"; "e"; "t"]; pf_full := ["f"] |} ] [] [] ] in
+  let f := {| fi_generate := true; fi_proto3 := true; fi_prefix := ["p"]; fi_import := ["i"]; fi_pkg := ["k"]; fi_msgs := [m] |} in
+  match gpp_run_main (@rev _) gpp_isort_rev gpp_default_feat_gen canon_genprog 5 gpp_default_registry [f] [] with
+  | GpOk (e, fs, outs) _ =>
+    e = None /\ gpp_emitted outs = [["p"; "."; "p"; "u"; "l"; "s"; "a"; "r"; "."; "g"; "o"]] /\
+    map fi_msgs fs =
+    [[ GpMsg ["M"] false [ {| pf_go := ["T"; "y"; "p"; "e"; "_"]; pf_full := ["a"] |}; {| pf_go := ["X"]; pf_full := ["b"] |} ]
+             [ {| po_go := ["H"; "a"; "s"; "_"]; po_syn := false; po_full := ["c"] |}; {| po_go := ["G"; "e"; "t"]; po_syn := true; po_full := ["d"] |} ]
+             [ GpMsg ["M"; "."; "N"] false [ {| pf_go := ["G"; "e"; "t"; "_"]; pf_full := ["e"] |} ] [] [];
+               GpMsg ["M"; "."; "E"] true [ {| pf_go := ["G"; "e"; "t"]; pf_full := ["f"] |} ] [] [] ] ]]
+  | _ => False
+  end.
+Proof. vm_compute. repeat split; reflexivity. Qed.
